@@ -68,10 +68,14 @@ def _int(x):
 
 def fdiff(fa, fb):
     """Compare two field lists [(name, type, value)...]: type 'g' exact ints, 'p' ints mod 4,
-    'r' exact scalar int, 'x' numbers (rtol 1e-5).  Returns None or (field, row index, text)."""
+    'r' exact scalar int, 'x' numbers (rtol 1e-5), 's' python objects (==).  Returns None or (field, row index, text)."""
     if len(fa) != len(fb):
         return ('structure', None, 'different number of result fields %d vs %d' % (len(fa), len(fb)))
     for (na, ka, a), (nb, kb, b) in zip(fa, fb):
+        if ka == 's':
+            if a != b:
+                return (na, None, '%s: pyclifford %r, torchclifford %r' % (na, a, b))
+            continue
         if ka == 'x':
             A = np.asarray(_np(a), dtype=complex)
             B = np.asarray(_np(b), dtype=complex)
@@ -107,6 +111,9 @@ def fjson(f):
         return None
     out = {}
     for n, k, v in f:
+        if k == 's':
+            out[n] = v
+            continue
         a = _int(v) if k != 'x' else np.asarray(_np(v), dtype=complex)
         if k == 'p' and getattr(a, 'dtype', None) is not None and a.dtype.kind in 'iu':
             a = a % 4
@@ -114,8 +121,27 @@ def fjson(f):
     return out
 
 
+def jsonable_small(d):
+    out = {}
+    for k, v in (d or {}).items():
+        a = np.asarray(v)
+        out[k] = a.tolist() if a.size <= 24 and a.dtype != object and not np.iscomplexobj(a) else (str(a.tolist())[:200] if a.size <= 24 else 'array%s' % (a.shape,))
+    return out
+
+
 # both packages raising is agreement only where no value is required: explicit refusals
 REFUSALS = (NotImplementedError,)
+
+
+class Blocked(Exception):
+    """a prerequisite step (compared as a case of its own) failed: the dependent case is not judged."""
+
+
+def pre(f):
+    try:
+        return f()
+    except Exception as e:      # noqa
+        raise Blocked('%s: %s' % (type(e).__name__, e))
 
 
 class Acc(object):
@@ -169,9 +195,15 @@ class Acc(object):
         except Exception as e:      # noqa
             eb = e
         it = self.item + [cid]
+        if isinstance(ea, Blocked) or isinstance(eb, Blocked):
+            self.count('blocked_by_failed_prerequisite:' + func)
+            self.n -= 1
+            self.nt -= 1 if nt else 0
+            return None
         if ea is not None:
             if eb is not None:
                 self.count('both_raise')
+                self.count('both_raise:%s/%s' % (func, type(ea).__name__))
                 if both_raise_ok or (isinstance(ea, REFUSALS) and isinstance(eb, REFUSALS)):
                     return None
                 k = kind('raise', None) if callable(kind) else kind
@@ -190,6 +222,10 @@ class Acc(object):
                 'raises %s' % type(eb).__name__, fjson(a)))
             return None
         d = fdiff(a, b)
+        if d is None and not self.samples and (cid % 7 == 3 or self.sel is not None):
+            fk = None if callable(kind) else kind
+            self.samples.append({'item': it, 'function': func, 'kind': fk, 'case': (label() if callable(label) else label)[:300],
+                                 'agreed_value': jsonable_small(fjson(a))})
         if d is not None:
             k = kind(d[0], d[1]) if callable(kind) else kind
             self.report('C13/%s/%s/%s' % (level, func, k), it, lambda: (
@@ -555,7 +591,7 @@ def _rep_tabs(N):
 
 def fn_k_trace(items):
     """item = [N, tableau index, mode]: stabilizer_projection_trace; mode 1 = every signed Hermitian
-    observable, mode 2 = every ordered independent commuting pair with signs (+,+) and (-,+)."""
+    observable, mode 2 = every ordered independent commuting pair with signs (+,+) and (-,+); mode 3 = signs (-,+) only."""
     tu, pu = TM()['tu'], lib.pu
     outs = []
     for item in items:
@@ -566,7 +602,7 @@ def fn_k_trace(items):
         if mode == 1:
             lists = [([j], [p]) for j in range(len(G)) for p in (0, 2)]
         else:
-            lists = [(list(c), [pa, 0]) for c in dom.commuting_lists(N, 2) for pa in (0, 2)]
+            lists = [(list(c), [pa, 0]) for c in dom.commuting_lists(N, 2) for pa in ((2,) if mode == 3 else (0, 2))]
         for idx, pp in lists:
             obs, po = G[idx], np.array(pp)
 
@@ -803,10 +839,10 @@ def kernel_legs(tier):
                    bound='stabilizer_project: all (table, r) tableaux N<=2 (phases are not read: complete) x every single string; all 90 ordered '
                          'independent commuting pairs on %s' % ('the tableaux of one representative per density matrix' if q else 'all N=2 tableaux')))
     tr = [[N, t, 1] for N in (1, 2) for t in _tabs_for(N, tier)]
-    tr += [[2, t, 2] for t in (_rep_tabs(2) if q else _tabs_for(2, 'quick'))]
+    tr += [[2, t, 3] for t in _rep_tabs(2)] if q else [[2, t, 2] for t in _tabs_for(2, 'quick')]
     out.append(Leg('k_trace', fn_k_trace, tr, chunk=16, src_states=len(tr), timeout=3000,
                    bound='stabilizer_projection_trace: N=1 all 48 tableaux, N=2 %s x all signed Hermitian observables; ordered commuting '
-                         'pairs (signs ++ and -+) on %s' % (
+                         'pairs (signs -+; thorough also ++) on %s' % (
                              ('720 tables x 1 sign pattern (rotating through all 16) x 3 ranks', 'one tableau per density matrix (91)') if q else
                              ('all 34560 tableaux', '720 tables x 1 rotating sign pattern x 3 ranks'))))
     ex = [[N, t, 'q' if (q and N == 2) else 'f'] for N in (1, 2) for t in _tabs_for(N, tier)]
@@ -840,5 +876,857 @@ def kernel_legs(tier):
     return out
 
 
+
+# ------------------------------------------------------------------------------ class level
+class _Py(object):
+    name = 'py'
+
+    def __init__(self):
+        self.alg, self.st, self.ci = lib.ppa, lib.pst, lib.pci
+    P = staticmethod(lib.P)
+    PL = staticmethod(lib.PL)
+    CM = staticmethod(lib.CM)
+    ST = staticmethod(lib.ST)
+    POLY = staticmethod(lib.POLY)
+
+    def mask(self, bools):
+        return np.array(bools, dtype=np.bool_)
+
+    def ints(self, a):
+        return np.array(a, dtype=lib.INT)
+
+
+class _Tq(object):
+    name = 'torch'
+
+    def __init__(self):
+        m = TM()
+        self.alg, self.st, self.ci, self.torch = m['tpa'], m['tst'], m['tci'], m['torch']
+    P = staticmethod(lib.tP)
+    PL = staticmethod(lib.tPL)
+    CM = staticmethod(lib.tCM)
+    ST = staticmethod(lib.tST)
+    POLY = staticmethod(lib.tPOLY)
+
+    def mask(self, bools):
+        return self.torch.tensor(list(map(bool, bools)), dtype=self.torch.bool)
+
+    def ints(self, a):
+        return lib.tT(a)
+
+
+_SIDES = {}
+
+
+def sides():
+    if not _SIDES:
+        _SIDES['py'], _SIDES['tq'] = _Py(), _Tq()
+    return _SIDES['py'], _SIDES['tq']
+
+
+def _is_num(o):
+    if isinstance(o, (int, float, complex, np.number, np.ndarray, bool)):
+        return True
+    return lib._tc is not None and lib._tc['torch'].is_tensor(o)
+
+
+def rep(o):
+    """representation of a library object as comparable fields (types are not compared:
+    PauliMonomial (pyclifford only) = one-term polynomial)."""
+    if o is None:
+        return [('none', 's', None)]
+    if isinstance(o, str):
+        return [('text', 's', o)]
+    if isinstance(o, (list, tuple)) and not (len(o) and _is_num(o[0])):
+        out = []
+        for k, x in enumerate(o):
+            out += [('%d.%s' % (k, n), t, v) for n, t, v in rep(x)]
+        return [('len', 'r', len(o))] + out
+    if _is_num(o) or isinstance(o, (list, tuple)):
+        return [('value', 'x', o)]
+    if hasattr(o, 'cs'):
+        return [('gs', 'g', np.atleast_2d(_int(o.gs))), ('ps', 'p', np.atleast_1d(_int(o.ps))),
+                ('cs', 'x', np.atleast_1d(np.asarray(_np(o.cs), dtype=complex)))]
+    if hasattr(o, 'c'):
+        return [('gs', 'g', np.atleast_2d(_int(o.g))), ('ps', 'p', np.atleast_1d(_int(o.p))),
+                ('cs', 'x', np.atleast_1d(np.asarray(_np(o.c), dtype=complex)))]
+    if hasattr(o, 'r') and hasattr(o, 'gs'):
+        return [('gs', 'g', o.gs), ('ps', 'p', o.ps), ('r', 'r', o.r)]
+    if hasattr(o, 'gs'):
+        return [('gs', 'g', o.gs), ('ps', 'p', o.ps)]
+    if hasattr(o, 'g'):
+        return [('g', 'g', o.g), ('p', 'p', np.squeeze(_int(o.p)))]
+    return [('repr', 's', repr(o))]
+
+
+def cl(acc, func, kind, label, op, nt=True, **kw):
+    """one class-level case: op(side) builds FRESH operands with the side's own types and returns the result."""
+    py, tq = sides()
+    return acc.run('class', func, kind, label, lambda: rep(op(py)), lambda: rep(op(tq)), nt=nt, **kw)
+
+
+PREFIX = [('', 0), ('+', 0), ('-', 2), ('i', 1), ('+i', 1), ('-i', 3)]
+LET2CODE = {'I': 0, 'X': 1, 'Y': 2, 'Z': 3}
+
+
+def fn_c_parse(items):
+    """item = [N]: pauli(...) / paulis(...) in every accepted description format for all strings of N qubits."""
+    outs = []
+    for item in items:
+        (N,), sel = split(item, 1)
+        acc = Acc([N], sel)
+        G = ref.all_g(N)
+        strs = [gstr(g) for g in G]
+        for s in strs:
+            codes = [LET2CODE[c] for c in s]
+            for pre, p in PREFIX:
+                cl(acc, 'pauli', 'str,prefix=%r' % pre, 'pauli(%r)' % (pre + s), lambda S: S.alg.pauli(pre + s), nt=bool(pre))
+            cl(acc, 'pauli', 'code-list', 'pauli(%r)' % (codes,), lambda S: S.alg.pauli(list(codes)))
+            cl(acc, 'pauli', 'code-tuple', 'pauli(%r)' % (tuple(codes),), lambda S: S.alg.pauli(tuple(codes)))
+            cl(acc, 'pauli', 'code-ndarray', 'pauli(array(%r))' % (codes,), lambda S: S.alg.pauli(np.array(codes)))
+            cl(acc, 'pauli', 'letter-list', 'pauli(%r)' % (list(s),), lambda S: S.alg.pauli(list(s)))
+            for tok in (4, 5, 6, 7):
+                cl(acc, 'pauli', 'code-list,phase-token-first', 'pauli(%r)' % ([tok] + codes,), lambda S: S.alg.pauli([tok] + codes))
+                cl(acc, 'pauli', 'code-list,phase-token-last', 'pauli(%r)' % (codes + [tok],), lambda S: S.alg.pauli(codes + [tok]))
+            d = {i: c for i, c in enumerate(codes) if c}
+            cl(acc, 'pauli', 'dict', 'pauli(%r, N=%d)' % (d, N), lambda S: S.alg.pauli(dict(d), N))
+            cl(acc, 'pauli', 'Pauli-object', 'pauli(Pauli(%s))' % s, lambda S: S.alg.pauli(S.P(ref.str_to_g(s), 3)))
+        # lists
+        sg = ['-i' + strs[-1], strs[0], '-' + strs[len(strs) // 2], 'i' + strs[1]]
+        forms = [('varargs', lambda S: S.alg.paulis(*sg)), ('list', lambda S: S.alg.paulis(list(sg))), ('tuple', lambda S: S.alg.paulis(tuple(sg))),
+                 ('generator', lambda S: S.alg.paulis(x for x in sg)), ('ndarray-of-str', lambda S: S.alg.paulis(np.array(sg))),
+                 ('single-str', lambda S: S.alg.paulis(sg[0])), ('all-strings', lambda S: S.alg.paulis(strs)),
+                 ('code-lists', lambda S: S.alg.paulis([[LET2CODE[c] for c in x] for x in strs])),
+                 ('dicts', lambda S: S.alg.paulis([{0: 1}, {N - 1: 3}, {}], N=N)),
+                 ('PauliList', lambda S: S.alg.paulis(S.PL(G, np.arange(len(G)) % 4))),
+                 ('Pauli-objects', lambda S: S.alg.paulis([S.P(g, k % 4) for k, g in enumerate(G)]))]
+        for nm, op in forms:
+            cl(acc, 'paulis', nm, 'paulis(<%s> of N=%d)' % (nm, N), op)
+        cl(acc, 'pauli_identity', 'N', 'pauli_identity(%d)' % N, lambda S: S.alg.pauli_identity(N))
+        cl(acc, 'pauli_zero', 'N', 'pauli_zero(%d)' % N, lambda S: S.alg.pauli_zero(N))
+        outs.append(acc.out())
+    return merge_out(outs)
+
+
+SCAL = [1, -1, 1j, -1j, 2.5, -0.5, 1 + 2j, 2]
+
+
+def _sc(c):
+    return ('unit' if c in (1, -1, 1j, -1j) else 'general') + ('' if isinstance(c, complex) else ',real')
+
+
+def poly_desc(N, k):
+    """deterministic pool of polynomials (gs, ps, cs): two-term polynomials over all pairs of group
+    elements (index k = i * M + j) incl. equal strings that add up or cancel exactly."""
+    Gs, Ps = allp(N)
+    M = len(Gs)
+    i, j = divmod(k, M)
+    if (i + j) % 3 == 0:
+        cs = [1.0, 1.0]
+    else:
+        cs = [CPOOL[i % len(CPOOL)], CPOOL[(i + 2 * j + 1) % len(CPOOL)]]
+    return np.array([Gs[i], Gs[j]]), np.array([Ps[i], Ps[j]]), np.array(cs, dtype=complex)
+
+
+def poly_kind(gs, ps, cs):
+    same = len(gs) == 2 and (gs[0] == gs[1]).all()
+    if same:
+        tot = cs[0] * 1j ** int(ps[0]) + cs[1] * 1j ** int(ps[1])
+        return 'repeated-string,' + ('cancelling' if abs(tot) < 1e-9 else 'adding')
+    return 'distinct-strings'
+
+
+def fn_c_pauli(items):
+    """item = [N, i1]: Pauli algebra with left operand string #i1 (all 4 phases) against every group element."""
+    outs = []
+    for item in items:
+        (N, i1), sel = split(item, 2)
+        acc = Acc([N, i1], sel)
+        G = ref.all_g(N)
+        Gs, Ps = allp(N)
+        g1 = G[i1]
+        A = ref.anti(g1[None, :], Gs)
+        ident = not g1.any()
+        for p1 in range(4):
+            s1 = gstr(g1, p1)
+            for j in range(len(Gs)):
+                g2, p2 = Gs[j], int(Ps[j])
+                s2 = gstr(g2, p2)
+                cl(acc, 'Pauli.__matmul__', 'anticommuting' if A[j] else 'commuting', '%s @ %s' % (s1, s2),
+                   lambda S: S.P(g1, p1) @ S.P(g2, p2), nt=bool(A[j]) or bool(p1 or p2))
+                k = poly_kind([g1, g2], [p1, p2], [1, 1])
+                cl(acc, 'Pauli.__add__', 'operand=Pauli,' + k, '%s + %s' % (s1, s2), lambda S: S.P(g1, p1) + S.P(g2, p2))
+                k = poly_kind([g1, g2], [p1, p2 + 2], [1, 1])
+                cl(acc, 'Pauli.__add__', 'operand=Pauli,' + k, '%s - %s' % (s1, s2), lambda S: S.P(g1, p1) - S.P(g2, p2))
+            cl(acc, 'Pauli.__neg__', 'any', '-(%s)' % s1, lambda S: -S.P(g1, p1))
+            for c in SCAL:
+                cl(acc, 'Pauli.__rmul__', 'scalar=' + _sc(c), '%r * %s' % (c, s1), lambda S: c * S.P(g1, p1))
+                cl(acc, 'Pauli.__truediv__', 'scalar=' + _sc(c), '%s / %r' % (s1, c), lambda S: S.P(g1, p1) / c)
+            cl(acc, 'trace', ('identity-string,phase%s0' % ('=' if p1 == 0 else '!=') if ident else 'traceless-string'),
+               '(%s).trace()' % s1, lambda S: S.P(g1, p1).trace(), nt=ident)
+            cl(acc, 'weight', 'Pauli', '(%s).weight()' % s1, lambda S: S.P(g1, p1).weight())
+            cl(acc, 'tokenize', 'Pauli,p=%d' % p1, '(%s).tokenize()' % s1, lambda S: S.P(g1, p1).tokenize())
+            cl(acc, 'copy', 'Pauli', '(%s).copy()' % s1, lambda S: S.P(g1, p1).copy())
+            cl(acc, 'as_polynomial', 'Pauli', '(%s).as_polynomial()' % s1, lambda S: S.P(g1, p1).as_polynomial())
+            cl(acc, 'as_list', 'Pauli', '(%s).as_list()' % s1, lambda S: S.P(g1, p1).as_list())
+            cl(acc, 'Pauli.N', 'Pauli', '(%s).N' % s1, lambda S: S.P(g1, p1).N)
+            for c in (2.5, 1j, 0):
+                cl(acc, 'Pauli.__add__', 'operand=number', '%s + %r' % (s1, c), lambda S: S.P(g1, p1) + c)
+                cl(acc, 'Pauli.__add__', 'operand=number', '%r + %s' % (c, s1), lambda S: c + S.P(g1, p1))
+                cl(acc, 'Pauli.__add__', 'operand=number', '%s - %r' % (s1, c), lambda S: S.P(g1, p1) - c)
+            # other operand types: polynomial, list
+            pg, pp, pc = poly_desc(N, (7 * i1 + p1) % (len(Gs) ** 2))
+            cl(acc, 'Pauli.__matmul__', 'operand=PauliPolynomial', '%s @ poly' % s1, lambda S: S.P(g1, p1) @ S.POLY(pg, pp, pc))
+            cl(acc, 'Pauli.__add__', 'operand=PauliPolynomial', '%s + poly' % s1, lambda S: S.P(g1, p1) + S.POLY(pg, pp, pc))
+            cl(acc, 'Pauli.__add__', 'operand=PauliPolynomial', '%s - poly' % s1, lambda S: S.P(g1, p1) - S.POLY(pg, pp, pc))
+            cl(acc, 'Pauli.__add__', 'operand=PauliList', '%s + list' % s1, lambda S: S.P(g1, p1) + S.PL(pg, pp))
+            cl(acc, 'Pauli.__matmul__', 'operand=PauliList', '%s @ list' % s1, lambda S: S.P(g1, p1) @ S.PL(pg, pp))
+        outs.append(acc.out())
+    return merge_out(outs)
+
+
+def _getitems(S, L):
+    return [('int0', 0), ('int-1', -1), ('np.int', np.int64(L - 1)), ('slice', slice(0, L, 2)), ('slice-tail', slice(1, None)),
+            ('bool-mask', S.mask([k % 2 == 0 for k in range(L)])), ('index-array', S.ints([L - 1, 0]).astype(int) if S.name == 'py' else S.ints([L - 1, 0]).long())]
+
+
+def fn_c_list(items):
+    """item = [N]: PauliList methods on the whole group (all phases) and on sub-lists."""
+    outs = []
+    for item in items:
+        (N,), sel = split(item, 1)
+        acc = Acc([N], sel)
+        Gs, Ps = allp(N)
+        L = len(Gs)
+        mk = lambda S: S.PL(Gs, Ps)
+        cl(acc, 'PauliList.__neg__', 'any', '-list', lambda S: -mk(S))
+        for c in SCAL:
+            cl(acc, 'PauliList.__rmul__', 'scalar=' + _sc(c), '%r * list' % (c,), lambda S: c * mk(S))
+            cl(acc, 'PauliList.__truediv__', 'scalar=' + _sc(c), 'list / %r' % (c,), lambda S: mk(S) / c)
+        cl(acc, 'trace', 'identity-string,phase!=0', 'list.trace()', lambda S: mk(S).trace())
+        cl(acc, 'trace', 'identity-string,phase=0', 'list[phase 0 part].trace()', lambda S: S.PL(Gs[:L // 4], Ps[:L // 4]).trace())
+        cl(acc, 'trace', 'traceless-string', 'list[without identity].trace()', lambda S: S.PL(Gs[1:L // 4], Ps[L // 4 + 1: L // 2]).trace())
+        cl(acc, 'weight', 'PauliList', 'list.weight()', lambda S: mk(S).weight())
+        cl(acc, 'tokenize', 'PauliList', 'list.tokenize()', lambda S: mk(S).tokenize())
+        cl(acc, 'copy', 'PauliList', 'list.copy()', lambda S: mk(S).copy())
+        cl(acc, 'as_polynomial', 'PauliList', 'list.as_polynomial()', lambda S: mk(S).as_polynomial())
+        cl(acc, 'PauliList.L,N', 'any', '(len(list), list.L, list.N)', lambda S: [len(mk(S)), mk(S).L, mk(S).N])
+        py, tq = sides()
+        for (nm, ip), (_, it) in zip(_getitems(py, L), _getitems(tq, L)):
+            if ip is None:
+                continue
+            acc.run('class', 'PauliList.__getitem__', nm, 'list[%s]' % nm, lambda: rep(mk(py)[ip]), lambda: rep(mk(tq)[it]))
+        for k in range(L):
+            acc.run('class', 'PauliList.__getitem__', 'int', 'list[%d]' % k, lambda: rep(mk(py)[k]), lambda: rep(mk(tq)[k]))
+        cl(acc, 'PauliList.__iter__', 'any', 'list(iter(list))[:5]', lambda S: [x for x in mk(S)][:5])
+        outs.append(acc.out())
+    return merge_out(outs)
+
+
+def fn_c_poly(items):
+    """item = [N, lo, hi, npart]: PauliPolynomial algebra on pool polynomials #lo..hi-1, npart partner polynomials for + - @."""
+    outs = []
+    for item in items:
+        (N, lo, hi, npart), sel = split(item, 4)
+        acc = Acc([N, lo, hi, npart], sel)
+        Gs, Ps = allp(N)
+        M = len(Gs)
+        partners = [0, M + 1, (M * M) // 2 + 3, 2 * M + 2 + 2 * (M // 4), 1, M * M - 1, 5 * M + 7, 3 * M + 3][:npart]
+        for k in range(lo, hi):
+            gs, ps, cs = poly_desc(N, k)
+            kd = poly_kind(gs, ps, cs)
+            mk = lambda S: S.POLY(gs, ps, cs)
+            nm = 'poly#%d[%s]' % (k, ' + '.join('(%s)%s' % (c, gstr(g, p)) for g, p, c in zip(gs, ps, cs)))
+            cl(acc, 'PauliPolynomial.reduce', kd, nm + '.reduce()', lambda S: mk(S).reduce(), nt=kd != 'distinct-strings')
+            cl(acc, 'PauliPolynomial.reduce', kd + ',tol=1e-3', nm + '.reduce(1e-3)', lambda S: mk(S).reduce(1e-3))
+            cl(acc, 'PauliPolynomial.__neg__', 'any', '-' + nm, lambda S: -mk(S))
+            for c in (2.5, 1j, 1 + 2j, 0):
+                cl(acc, 'PauliPolynomial.__rmul__', 'scalar', '%r * %s' % (c, nm), lambda S: c * mk(S))
+            for c in (2, -0.5, 1j):
+                cl(acc, 'PauliPolynomial.__truediv__', 'scalar', '%s / %r' % (nm, c), lambda S: mk(S) / c)
+            idph = any((not g.any()) and p % 4 for g, p in zip(gs, ps))
+            idany = any(not g.any() for g in gs)
+            cl(acc, 'trace', ('identity-string,phase!=0' if idph else ('identity-string,phase=0' if idany else 'traceless-string')),
+               nm + '.trace()', lambda S: mk(S).trace(), nt=idany)
+            cl(acc, 'weight', 'PauliPolynomial', nm + '.weight()', lambda S: mk(S).weight())
+            cl(acc, 'tokenize', 'PauliPolynomial', nm + '.tokenize()', lambda S: mk(S).tokenize())
+            cl(acc, 'copy', 'PauliPolynomial', nm + '.copy()', lambda S: mk(S).copy())
+            cl(acc, 'as_polynomial', 'PauliPolynomial', nm + '.as_polynomial()', lambda S: mk(S).as_polynomial())
+            py, tq = sides()
+            for (gn, ip), (_, it) in zip(_getitems(py, 2), _getitems(tq, 2)):
+                if ip is None:
+                    continue
+                acc.run('class', 'PauliPolynomial.__getitem__', gn, '%s[%s]' % (nm, gn), lambda: rep(mk(py)[ip]), lambda: rep(mk(tq)[it]))
+            for c in (2.5, 1j):
+                cl(acc, 'PauliPolynomial.__add__', 'operand=number', '%s + %r' % (nm, c), lambda S: mk(S) + c)
+                cl(acc, 'PauliPolynomial.__add__', 'operand=number', '%r + %s' % (c, nm), lambda S: c + mk(S))
+                cl(acc, 'PauliPolynomial.__add__', 'operand=number', '%s - %r' % (nm, c), lambda S: mk(S) - c)
+            cl(acc, 'PauliPolynomial.__add__', 'operand=Pauli', nm + ' + Pauli', lambda S: mk(S) + S.P(gs[1], 3))
+            cl(acc, 'PauliPolynomial.__add__', 'operand=Pauli', 'Pauli + ' + nm, lambda S: S.P(gs[0], 2) + mk(S))
+            cl(acc, 'PauliPolynomial.__add__', 'operand=Pauli', nm + ' - Pauli', lambda S: mk(S) - S.P(gs[0], ps[0]))
+            cl(acc, 'PauliPolynomial.__add__', 'operand=PauliList', nm + ' + PauliList', lambda S: mk(S) + S.PL(gs[::-1], ps))
+            cl(acc, 'PauliPolynomial.__matmul__', 'operand=Pauli', nm + ' @ Pauli', lambda S: mk(S) @ S.P(gs[1], 1))
+            cl(acc, 'PauliPolynomial.__matmul__', 'operand=PauliList', nm + ' @ PauliList', lambda S: mk(S) @ S.PL(gs, ps))
+            cl(acc, 'PauliPolynomial.__add__', 'operand=self(empty result)', nm + ' - ' + nm, lambda S: mk(S) - mk(S))
+            cl(acc, 'PauliPolynomial.__add__', 'operand=empty-polynomial', '(%s - itself) + %s' % (nm, nm), lambda S: (mk(S) - mk(S)) + mk(S))
+            cl(acc, 'PauliPolynomial.__matmul__', 'operand=empty-polynomial', '(%s - itself) @ %s' % (nm, nm), lambda S: (mk(S) - mk(S)) @ mk(S))
+            cl(acc, 'trace', 'empty-polynomial', '(%s - itself).trace()' % nm, lambda S: (mk(S) - mk(S)).trace())
+            for q in partners:
+                g2, p2, c2 = poly_desc(N, (q + k) % (M * M))
+                mk2 = lambda S: S.POLY(g2, p2, c2)
+                n2 = 'poly#%d' % ((q + k) % (M * M))
+                cl(acc, 'PauliPolynomial.__add__', 'operand=PauliPolynomial', '%s + %s' % (nm, n2), lambda S: mk(S) + mk2(S))
+                cl(acc, 'PauliPolynomial.__add__', 'operand=PauliPolynomial', '%s - %s' % (nm, n2), lambda S: mk(S) - mk2(S))
+                cl(acc, 'PauliPolynomial.__matmul__', 'operand=PauliPolynomial', '%s @ %s' % (nm, n2), lambda S: mk(S) @ mk2(S))
+                cl(acc, 'PauliPolynomial.reduce', 'product', '(%s @ %s).reduce()' % (nm, n2), lambda S: (mk(S) @ mk2(S)).reduce())
+        outs.append(acc.out())
+    return merge_out(outs)
+
+
+
+# ---- rotations and transforms
+def _subsets(N, n):
+    return [list(c) for c in itertools.combinations(range(N), n)]
+
+
+def _mask_kind(qs, N):
+    if len(qs) == N:
+        return 'full'
+    return 'contiguous' if qs[-1] - qs[0] + 1 == len(qs) else 'non-contiguous'
+
+
+def _fixed_states(N):
+    """a few tableaux (gs, ps, r) spread over the enumeration incl. mixed ones and signs."""
+    tabs = stab.tableaux(N)
+    idx = sorted({0, len(tabs) - 1, len(tabs) // 2 + 1, len(tabs) // 3 + 2, (2 * len(tabs)) // 3, 5 % len(tabs), len(tabs) // 5})
+    return [(i, tabs[i]) for i in idx]
+
+
+def _big_states(N):
+    """N=3 states (the enumeration covers N<=2): products of an N=2 tableau on qubits (0,2) with a signed
+    one-qubit tableau on qubit 1, every rank."""
+    out = []
+    t2 = stab.tableaux(2)
+    t1 = stab.tableaux(1)
+    for a, b in ((7, 5), (len(t2) // 2 + 1, 11), (len(t2) - 2, 40), (3001, 22)):
+        g2, p2, r2 = t2[a]
+        g1, p1, r1 = t1[b]
+        # stabilizers first, then destabilizers; standby rows first among the stabilizers
+        rows = []
+        for blk in (0, 1):
+            part2 = [(np.array([g2[k + 2 * blk][0], g2[k + 2 * blk][1], 0, 0, g2[k + 2 * blk][2], g2[k + 2 * blk][3]]), p2[k + 2 * blk], k < r2) for k in range(2)]
+            part1 = [(np.array([0, 0, g1[blk][0], g1[blk][1], 0, 0]), p1[blk], r1 == 1)]
+            allr = part2 + part1
+            order = [x for x in range(3) if allr[x][2]] + [x for x in range(3) if not allr[x][2]]
+            rows.append([allr[x] for x in order])
+        gs = np.array([r_[0] for r_ in rows[0]] + [r_[0] for r_ in rows[1]])
+        ps = np.array([r_[1] for r_ in rows[0]] + [r_[1] for r_ in rows[1]])
+        r = r2 + r1
+        assert ref.tableau_invariant(gs, ps, r) == '', ref.tableau_invariant(gs, ps, r)
+        out.append((gs, ps, r))
+    return out
+
+
+_BS = {}
+
+
+def big_states(N):
+    if N not in _BS:
+        _BS[N] = _big_states(N)
+    return _BS[N]
+
+
+def fn_c_rotate(items):
+    """item = [N, gi]: obj.rotate_by(+-G[gi]) without mask for every object kind."""
+    outs = []
+    for item in items:
+        (N, gi), sel = split(item, 2)
+        acc = Acc([N, gi], sel)
+        G = ref.all_g(N)
+        Gs, Ps = allp(N)
+        cs = np.array([CPOOL[k % len(CPOOL)] for k in range(len(Gs))])
+        A = ref.anti(G[gi][None, :], Gs)
+        for p in (0, 2):
+            sg = gstr(G[gi], p)
+            gen = lambda S: S.P(G[gi], p)
+            rk = lambda f, r: 'shape' if r is None else ('anticommuting-row' if A[r] else 'commuting-row')
+            cl(acc, 'PauliList.rotate_by', rk, 'PauliList(whole group).rotate_by(%s)' % sg, lambda S: S.PL(Gs, Ps).rotate_by(gen(S)))
+            cl(acc, 'PauliPolynomial.rotate_by', rk, 'PauliPolynomial(whole group).rotate_by(%s)' % sg, lambda S: S.POLY(Gs, Ps, cs).rotate_by(gen(S)))
+            if N <= 2:
+                for j in range(len(Gs)):
+                    cl(acc, 'Pauli.rotate_by', 'anticommuting' if A[j] else 'commuting', '(%s).rotate_by(%s)' % (gstr(Gs[j], Ps[j]), sg),
+                       lambda S: S.P(Gs[j], Ps[j]).rotate_by(gen(S)), nt=bool(A[j]))
+                reps = _rep_tabs(N)
+                for ti in reps:
+                    gs0, ps0, r0 = stab.tableaux(N)[ti]
+                    cl(acc, 'StabilizerState.rotate_by', 'pure' if r0 == 0 else 'mixed',
+                       lambda: '%s.rotate_by(%s)' % (stab.describe(gs0, ps0, r0), sg), lambda S: S.ST(gs0, ps0, r0).rotate_by(gen(S)))
+                nm = len(dom.valid_maps(N))
+                for mi in sorted({0, nm - 1, nm // 2 + 3, nm // 3 + 1}):
+                    gm, pm = dom.valid_maps(N)[mi]
+                    cl(acc, 'CliffordMap.rotate_by', 'map', 'map#%d.rotate_by(%s)' % (mi, sg), lambda S: S.CM(gm, pm).rotate_by(gen(S)))
+            else:
+                for gs0, ps0, r0 in big_states(N):
+                    cl(acc, 'StabilizerState.rotate_by', 'pure' if r0 == 0 else 'mixed',
+                       lambda: '%s.rotate_by(%s)' % (stab.describe(gs0, ps0, r0), sg), lambda S: S.ST(gs0, ps0, r0).rotate_by(gen(S)))
+        outs.append(acc.out())
+    return merge_out(outs)
+
+
+def fn_c_rotate_mask(items):
+    """item = [N, n, gi]: n-qubit generator +-G_n[gi] applied through every n-subset mask of N qubits."""
+    py, tq = sides()
+    outs = []
+    for item in items:
+        (N, n, gi), sel = split(item, 3)
+        acc = Acc([N, n, gi], sel)
+        g = ref.all_g(n)[gi]
+        Gs, Ps = allp(N)
+        cs = np.array([CPOOL[k % len(CPOOL)] for k in range(len(Gs))])
+        states = [t for _, t in _fixed_states(N)] if N <= 2 else big_states(N)
+        for qs in _subsets(N, n):
+            bools = [q in qs for q in range(N)]
+            mk = _mask_kind(qs, N)
+            for p in (0, 2):
+                sg = gstr(g, p)
+                gen = lambda S: S.P(g, p)
+                cl(acc, 'PauliList.rotate_by', 'mask=' + mk, 'PauliList(whole group).rotate_by(%s, mask=%s)' % (sg, qs),
+                   lambda S: S.PL(Gs, Ps).rotate_by(gen(S), mask=S.mask(bools)))
+                cl(acc, 'PauliList.rotate_by', 'mask=' + mk + ',numpy-bool-mask', 'PauliList(whole group).rotate_by(%s, mask=numpy %s)' % (sg, qs),
+                   lambda S: S.PL(Gs, Ps).rotate_by(gen(S), mask=np.array(bools)))
+                cl(acc, 'PauliPolynomial.rotate_by', 'mask=' + mk, 'PauliPolynomial(whole group).rotate_by(%s, mask=%s)' % (sg, qs),
+                   lambda S: S.POLY(Gs, Ps, cs).rotate_by(gen(S), mask=S.mask(bools)))
+                cl(acc, 'Pauli.rotate_by', 'mask=' + mk, 'Pauli.rotate_by(%s, mask=%s)' % (sg, qs),
+                   lambda S: [S.P(Gs[j], Ps[j]).rotate_by(gen(S), mask=S.mask(bools)) for j in range(0, len(Gs), max(1, len(Gs) // 16))])
+                for gs0, ps0, r0 in states:
+                    cl(acc, 'StabilizerState.rotate_by', 'mask=' + mk + (',pure' if r0 == 0 else ',mixed'),
+                       lambda: '%s.rotate_by(%s, mask=%s)' % (stab.describe(gs0, ps0, r0), sg, qs),
+                       lambda S: S.ST(gs0, ps0, r0).rotate_by(gen(S), mask=S.mask(bools)))
+        outs.append(acc.out())
+    return merge_out(outs)
+
+
+def _partners(N):
+    nm = len(dom.valid_maps(N))
+    if N == 1:
+        return list(range(nm))
+    return sorted({(k * 1531 + 7) % nm for k in range(8)})
+
+
+def fn_c_map(items):
+    """item = [N, mi]: transform_by(map #mi) of every object kind; compose / inverse / copy / to_state / to_map."""
+    outs = []
+    for item in items:
+        (N, mi), sel = split(item, 2)
+        acc = Acc([N, mi], sel)
+        gm, pm = dom.valid_maps(N)[mi]
+        Gs, Ps = allp(N)
+        G = ref.all_g(N)
+        cs = np.array([CPOOL[k % len(CPOOL)] for k in range(len(Gs))])
+        ov = (Gs[:, 0::2] & Gs[:, 1::2]).sum(-1)
+        sgn = 'signed-map' if pm.any() else 'unsigned-map'
+        rk = lambda f, r: 'shape' if r is None else (('input-with-Y' if ov[r] else 'input-without-Y') + ',' + sgn)
+        mp = lambda S: S.CM(gm, pm)
+        nm = 'map#%d%s' % (mi, [gstr(g, p) for g, p in zip(gm, pm)])
+        cl(acc, 'PauliList.transform_by', rk, 'PauliList(whole group).transform_by(%s)' % nm, lambda S: S.PL(Gs, Ps).transform_by(mp(S)))
+        cl(acc, 'PauliPolynomial.transform_by', rk, 'PauliPolynomial(whole group).transform_by(%s)' % nm, lambda S: S.POLY(Gs, Ps, cs).transform_by(mp(S)))
+        for j, g in enumerate(G):
+            pj = (j + mi) % 4
+            cl(acc, 'Pauli.transform_by', ('input-with-Y' if ov[j] else 'input-without-Y') + ',' + sgn, '(%s).transform_by(%s)' % (gstr(g, pj), nm),
+               lambda S: S.P(g, pj).transform_by(mp(S)))
+        for ti, (gs0, ps0, r0) in _fixed_states(N):
+            cl(acc, 'StabilizerState.transform_by', ('pure,' if r0 == 0 else 'mixed,') + sgn, lambda: '%s.transform_by(%s)' % (stab.describe(gs0, ps0, r0), nm),
+               lambda S: S.ST(gs0, ps0, r0).transform_by(mp(S)))
+        cl(acc, 'CliffordMap.inverse', sgn, nm + '.inverse()', lambda S: mp(S).inverse())
+        cl(acc, 'CliffordMap.copy', sgn, nm + '.copy()', lambda S: mp(S).copy())
+        cl(acc, 'CliffordMap.to_state', sgn + ',r=None', nm + '.to_state()', lambda S: mp(S).to_state())
+        for r in range(N + 1):
+            cl(acc, 'CliffordMap.to_state', sgn + ',r=int', nm + '.to_state(%d)' % r, lambda S: mp(S).to_state(r))
+            tg, tp = dom.map_to_tableau(gm, pm)
+            cl(acc, 'StabilizerState.to_map', sgn, 'state(tableau of %s, r=%d).to_map()' % (nm, r), lambda S: S.ST(tg, tp, r).to_map())
+            cl(acc, 'StabilizerState.copy', sgn + (',pure' if r == 0 else ',mixed'), 'state(tableau of %s, r=%d).copy()' % (nm, r), lambda S: S.ST(tg, tp, r).copy())
+            cl(acc, 'CliffordMap.to_state', sgn + ',round-trip', nm + '.to_state(%d).to_map()' % r, lambda S: pre(lambda: mp(S).to_state(r)).to_map())
+        for qi in _partners(N):
+            g2, p2 = dom.valid_maps(N)[qi]
+            cl(acc, 'CliffordMap.compose', 'self-first', '%s.compose(map#%d)' % (nm, qi), lambda S: mp(S).compose(S.CM(g2, p2)))
+            cl(acc, 'CliffordMap.compose', 'self-second', 'map#%d.compose(%s)' % (qi, nm), lambda S: S.CM(g2, p2).compose(mp(S)))
+        cl(acc, 'CliffordMap.compose', 'with-inverse', '%s.compose(its inverse)' % nm, lambda S: mp(S).compose(mp(S).inverse()))
+        outs.append(acc.out())
+    return merge_out(outs)
+
+
+def fn_c_map_mask(items):
+    """item = [N, n, mi]: n-qubit map #mi through every n-subset mask of N qubits: transform_by(map, mask)
+    on lists / polynomials / states, and identity_map(N).embed(map, mask)."""
+    outs = []
+    for item in items:
+        (N, n, mi), sel = split(item, 3)
+        acc = Acc([N, n, mi], sel)
+        gm, pm = dom.valid_maps(n)[mi]
+        G = ref.all_g(N)
+        Pq = (np.arange(len(G)) + mi) % 4
+        cs = np.array([CPOOL[k % len(CPOOL)] for k in range(len(G))])
+        states = [t for _, t in _fixed_states(N)][:4] if N <= 2 else big_states(N)
+        mp = lambda S: S.CM(gm, pm)
+        nm = 'map%d#%d' % (n, mi)
+        for qs in _subsets(N, n):
+            bools = [q in qs for q in range(N)]
+            mk = _mask_kind(qs, N)
+            cl(acc, 'PauliList.transform_by', 'mask=' + mk, 'PauliList(all strings).transform_by(%s, mask=%s)' % (nm, qs),
+               lambda S: S.PL(G, Pq).transform_by(mp(S), mask=S.mask(bools)))
+            if n == 1 or mi % 16 == 0:
+                cl(acc, 'PauliPolynomial.transform_by', 'mask=' + mk, 'PauliPolynomial(all strings).transform_by(%s, mask=%s)' % (nm, qs),
+                   lambda S: S.POLY(G, Pq, cs).transform_by(mp(S), mask=S.mask(bools)))
+            cl(acc, 'Pauli.transform_by', 'mask=' + mk, 'Pauli.transform_by(%s, mask=%s)' % (nm, qs),
+               lambda S: [S.P(G[j], Pq[j]).transform_by(mp(S), mask=S.mask(bools)) for j in (1, len(G) // 2 + 1, len(G) - 1)])
+            for gs0, ps0, r0 in states:
+                cl(acc, 'StabilizerState.transform_by', 'mask=' + mk + (',pure' if r0 == 0 else ',mixed'),
+                   lambda: '%s.transform_by(%s, mask=%s)' % (stab.describe(gs0, ps0, r0), nm, qs),
+                   lambda S: S.ST(gs0, ps0, r0).transform_by(mp(S), mask=S.mask(bools)))
+            cl(acc, 'CliffordMap.embed', lambda f, r: 'any-mask' if f == 'raise' else 'mask=' + mk, 'identity_map(%d).embed(%s, mask=%s)' % (N, nm, qs),
+               lambda S: S.st.identity_map(N).embed(mp(S), S.mask(bools)))
+        outs.append(acc.out())
+    return merge_out(outs)
+
+
+# ---- states
+def fn_c_state(items):
+    """item = [N, tableau index]: queries of a stabilizer state."""
+    outs = []
+    for item in items:
+        (N, ti), sel = split(item, 2)
+        acc = Acc([N, ti], sel)
+        gs0, ps0, r0 = stab.tableaux(N)[ti]
+        Gs, Ps = allp(N)
+        G = ref.all_g(N)
+        pur = 'pure' if r0 == 0 else 'mixed'
+        st = lambda S: S.ST(gs0, ps0, r0)
+        nm = lambda: str(stab.describe(gs0, ps0, r0))
+
+        def ek(f, row):
+            if row is None:
+                return pur + ',shape'
+            k = step_kind(gs0, ps0, r0, Gs[row])
+            return pur + ',' + ('eigen' if k.startswith('eigen') else 'zero-expectation')
+        cl(acc, 'StabilizerState.expect', lambda f, r: 'operand=PauliList,' + ek(f, r), lambda: nm() + '.expect(PauliList whole group)',
+           lambda S: st(S).expect(S.PL(Gs, Ps)))
+        for j, g in enumerate(G):
+            pj = (j + ti) % 4
+            k = step_kind(gs0, ps0, r0, g)
+            cl(acc, 'StabilizerState.expect', 'operand=Pauli,' + pur + ',' + ('eigen' if k.startswith('eigen') else 'zero-expectation'),
+               lambda: nm() + '.expect(%s)' % gstr(g, pj), lambda S: st(S).expect(S.P(g, pj)), nt=k.startswith('eigen'))
+        cs = np.array([CPOOL[k % len(CPOOL)] for k in range(len(Gs))])
+        cl(acc, 'StabilizerState.expect', 'operand=PauliPolynomial,' + pur, lambda: nm() + '.expect(polynomial over the whole group)',
+           lambda S: st(S).expect(S.POLY(Gs, Ps, cs)))
+        pg, pp, pc = poly_desc(N, (ti * 37 + 11) % (len(Gs) ** 2))
+        cl(acc, 'StabilizerState.expect', 'operand=PauliPolynomial,' + pur, lambda: nm() + '.expect(two-term polynomial)',
+           lambda S: st(S).expect(S.POLY(pg, pp, pc)))
+        for sub in dom.subsets(N):
+            sk = 'empty' if not sub else ('whole' if len(sub) == N else 'proper')
+            forms = [('list', lambda: list(sub)), ('tuple', lambda: tuple(sub)), ('int-ndarray', lambda: np.array(sub, dtype=int))]
+            if sub:
+                forms.append(('bool-ndarray', lambda: np.array([q in sub for q in range(N)])))
+            for fn_, mkf in forms:
+                cl(acc, 'StabilizerState.entropy', 'subsys=%s,%s' % (fn_, sk) if fn_ != 'bool-ndarray' else 'subsys=bool-ndarray',
+                   lambda: nm() + '.entropy(%s %s)' % (fn_, sub), lambda S: st(S).entropy(mkf()), nt=bool(sub) and len(sub) < N)
+        cl(acc, 'StabilizerState.density_matrix', pur, lambda: nm() + '.density_matrix', lambda S: st(S).density_matrix)
+        for bits in itertools.product((0, 1), repeat=N):
+            cl(acc, 'StabilizerState.get_prob', pur, lambda: nm() + '.get_prob(%s)' % (bits,), lambda S: st(S).get_prob(S.ints(bits)))
+        cl(acc, 'StabilizerState.to_map', pur, lambda: nm() + '.to_map()', lambda S: st(S).to_map())
+        cl(acc, 'StabilizerState.copy', pur, lambda: nm() + '.copy()', lambda S: st(S).copy())
+        cl(acc, 'StabilizerState.tokenize', pur, lambda: nm() + '.tokenize()', lambda S: st(S).tokenize())
+        cl(acc, 'StabilizerState.stabilizers', pur, lambda: nm() + '.stabilizers', lambda S: st(S).stabilizers)
+        cl(acc, 'StabilizerState.__neg__', pur, lambda: '-' + nm(), lambda S: -st(S))
+        cl(acc, 'StabilizerState.__rmul__', pur, lambda: '2.5 * ' + nm(), lambda S: 2.5 * st(S))
+        cl(acc, 'StabilizerState.__truediv__', pur, lambda: nm() + ' / 2', lambda S: st(S) / 2)
+        cl(acc, 'StabilizerState.__sub__', pur + ',operand=polynomial', lambda: nm() + ' - its density matrix', lambda S: st(S) - st(S).density_matrix)
+        cl(acc, 'StabilizerState.__matmul__', pur + ',operand=Pauli', lambda: nm() + ' @ Pauli', lambda S: st(S) @ S.P(G[-1], 1))
+        outs.append(acc.out())
+    return merge_out(outs)
+
+
+def fn_c_overlap(items):
+    """item = [N, receiver tableau index, mode]: expect(StabilizerState): receiver x operand states; mode 'r' = one
+    operand per density matrix (all ranks), mode 's' = 8 operands spread over the enumeration."""
+    outs = []
+    for item in items:
+        (N, ti, mode), sel = split(item, 3)
+        acc = Acc([N, ti, mode], sel)
+        gs0, ps0, r0 = stab.tableaux(N)[ti]
+        tabs = stab.tableaux(N)
+        ops = _rep_tabs(N) if mode == 'r' else sorted({(k * 4007 + 3 * ti + 1) % len(tabs) for k in range(8)})
+        for oi in ops:
+            g1, p1, r1 = tabs[oi]
+            cl(acc, 'StabilizerState.expect', 'operand=StabilizerState,receiver=%s,operand-%s' % ('pure' if r0 == 0 else 'mixed', 'pure' if r1 == 0 else 'mixed'),
+               lambda: '%s.expect(%s)' % (stab.describe(gs0, ps0, r0), stab.describe(g1, p1, r1)),
+               lambda S: S.ST(gs0, ps0, r0).expect(S.ST(g1, p1, r1)), nt=r0 == 0)
+        outs.append(acc.out())
+    return merge_out(outs)
+
+
+def fn_c_ctor(items):
+    """item = ['named', N] | ['stab', N, L, lo, hi]: constructors."""
+    outs = []
+    for item in items:
+        if item[0] == 'named':
+            (_, N), sel = split(item, 2)
+            acc = Acc(['named', N], sel)
+            for nm_ in ('zero_state', 'one_state', 'maximally_mixed_state', 'ghz_state'):
+                cl(acc, nm_, 'N', '%s(%d)' % (nm_, N), lambda S: getattr(S.st, nm_)(N))
+            cl(acc, 'identity_map', 'N', 'identity_map(%d)' % N, lambda S: S.st.identity_map(N))
+            cl(acc, 'zero_state', 'then-queries', 'zero_state(%d).expect(one_state(%d))' % (N, N), lambda S: S.st.zero_state(N).expect(S.st.one_state(N)))
+            if N <= 3:
+                for g, p in dom.hermitian_paulis(N):
+                    s_ = ('-' if p == 2 else '') + gstr(g)
+                    cl(acc, 'clifford_rotation_map', 'Pauli', 'clifford_rotation_map(Pauli %s)' % gstr(g, p), lambda S: S.st.clifford_rotation_map(S.P(g, p)))
+                    cl(acc, 'clifford_rotation_map', 'str', 'clifford_rotation_map(%r)' % s_, lambda S: S.st.clifford_rotation_map(s_))
+            outs.append(acc.out())
+            continue
+        (_, N, L, lo, hi), sel = split(item, 5)
+        acc = Acc(['stab', N, L, lo, hi], sel)
+        G = ref.all_g(N)
+        lists = dom.commuting_lists(N, L)[lo:hi]
+        signs = list(itertools.product((0, 2), repeat=L)) if N <= 2 else [tuple([0] * L), tuple([2] * L), tuple(2 * (k % 2) for k in range(L))]
+        for idx in lists:
+            for sg in signs:
+                gs, ps = G[list(idx)], np.array(sg)
+                strs = [('-' if p == 2 else '') + gstr(g) for g, p in zip(gs, ps)]
+                kd = 'L=N' if L == N else 'L<N'
+                cl(acc, 'stabilizer_state', 'input=PauliList,' + kd, 'stabilizer_state(PauliList %s)' % strs, lambda S: S.st.stabilizer_state(S.PL(gs, ps)))
+                cl(acc, 'stabilizer_state', 'input=strings', 'stabilizer_state(*%s)' % strs, lambda S: S.st.stabilizer_state(*strs))
+                cl(acc, 'stabilizer_state', 'input=strings', 'stabilizer_state(%s)' % strs, lambda S: S.st.stabilizer_state(list(strs)))
+        outs.append(acc.out())
+    return merge_out(outs)
+
+
+# ---- gates, layers, circuits
+T_H = (np.array([[0, 1], [1, 0]]), np.array([0, 0]))
+T_S = (np.array([[1, 1], [0, 1]]), np.array([0, 0]))
+T_SX = (np.array([[1, 0], [1, 1]]), np.array([0, 2]))
+T_CX = (np.array([[1, 0, 1, 0], [0, 1, 0, 0], [0, 0, 1, 0], [0, 1, 0, 1]]), np.array([0, 0, 0, 0]))
+T_CZY = (np.array([[1, 0, 0, 1], [0, 1, 0, 0], [0, 1, 1, 0], [0, 0, 0, 1]]), np.array([0, 2, 2, 0]))   # signed CZ-like table
+
+
+def alphabet(N):
+    """gate letters (name, kind, qubits, data) on ascending qubit tuples."""
+    if N == 2:
+        return [('H0', 'fwd', (0,), T_H), ('S1', 'fwd', (1,), T_S), ('CX01', 'fwd', (0, 1), T_CX), ('bS0', 'bwd', (0,), T_S),
+                ('R+ZZ', 'gen', (0, 1), ('ZZ', 0)), ('R-XY', 'gen', (0, 1), ('XY', 2)), ('R-Y1', 'gen', (1,), ('Y', 2)), ('M01', 'fwd', (0, 1), T_CZY)]
+    return [('H0', 'fwd', (0,), T_H), ('S1', 'fwd', (1,), T_S), ('X2', 'fwd', (2,), T_SX), ('CX01', 'fwd', (0, 1), T_CX), ('CX12', 'fwd', (1, 2), T_CX),
+            ('M02', 'fwd', (0, 2), T_CZY), ('bS0', 'bwd', (0,), T_S), ('bCX12', 'bwd', (1, 2), T_CX), ('R+ZZ01', 'gen', (0, 1), ('ZZ', 0)),
+            ('R-XY02', 'gen', (0, 2), ('XY', 2)), ('R+XYZ', 'gen', (0, 1, 2), ('XYZ', 0)), ('R-Y2', 'gen', (2,), ('Y', 2))]
+
+
+def mk_gate(S, letter):
+    nm, kind, qs, data = letter
+    g = S.ci.CliffordGate(*qs)
+    if kind == 'fwd':
+        g.set_forward_map(S.CM(*data))
+    elif kind == 'bwd':
+        g.set_backward_map(S.CM(*data))
+    else:
+        g.set_generator(S.P(ref.str_to_g(data[0]), data[1]))
+    return g
+
+
+def mk_circ(S, N, letters):
+    c = S.ci.identity_circuit(N)
+    for l in letters:
+        c.take(mk_gate(S, l))
+    return c
+
+
+def layout(c):
+    """structure of a circuit: per layer the gates' qubits and which data they carry."""
+    out = []
+    for layer in c.layers_forward():
+        out.append(tuple((tuple(int(q) for q in g.qubits), g.generator is not None, g.forward_map is not None, g.backward_map is not None) for g in layer.gates))
+    return repr(out)
+
+
+def _circ_inputs(S, N):
+    G = ref.all_g(N)
+    Pq = np.arange(len(G)) % 4
+    ins = [('PauliList', lambda: S.PL(G, Pq))]
+    sts = [t for _, t in _fixed_states(N)][1:4] if N <= 2 else big_states(N)[:3]
+    for k, (gs0, ps0, r0) in enumerate(sts):
+        ins.append(('state%d' % k, (lambda gs0=gs0, ps0=ps0, r0=r0: S.ST(gs0, ps0, r0))))
+    return ins
+
+
+def fn_c_circ(items):
+    """item = [N, program...]: program = letter indices; every configuration of gates / layers / circuits."""
+    outs = []
+    for item in items:
+        N = item[0]
+        alpha = alphabet(N)
+        # programs are variable length: the case selector is recognised by a trailing ['#', k]
+        if len(item) >= 2 and item[-2] == '#':
+            prog, sel = list(item[1:-2]), item[-1]
+        else:
+            prog, sel = list(item[1:]), None
+        acc = Acc([N] + prog + ['#'], sel)
+        letters = [alpha[k] for k in prog]
+        pn = '+'.join(l[0] for l in letters)
+        kinds = sorted({l[1] for l in letters})
+        pk = 'len=%d,%s' % (len(letters), '+'.join(kinds))
+        locality = 'local' if any(len(l[2]) < N for l in letters) else 'global'
+        py, tq = sides()
+        nin = len(_circ_inputs(py, N))
+
+        def both_dirs(func, kind, label, build):
+            """build(S) -> object with forward/backward; applied to each input."""
+            for k in range(nin):
+                for d in ('forward', 'backward'):
+                    cl(acc, func + '.' + d, kind, lambda: '%s.%s(%s)' % (label, d, _circ_inputs(py, N)[k][0]),
+                       lambda S: getattr(build(S), d)(_circ_inputs(S, N)[k][1]()))
+        if len(letters) == 1:
+            l = letters[0]
+            gk = 'gate=%s,%s' % (l[1], 'global' if len(l[2]) == N else 'local')
+            both_dirs('CliffordGate', gk, 'gate %s' % l[0], lambda S: mk_gate(S, l))
+            both_dirs('CliffordGate', gk + ',copy', 'gate %s copy' % l[0], lambda S: mk_gate(S, l).copy())
+            both_dirs('CliffordGate', gk + ',compiled', 'gate %s compiled' % l[0], lambda S: pre(lambda: mk_gate(S, l).compile()))
+            cl(acc, 'CliffordGate.compile', gk, 'gate %s .compile() maps' % l[0], lambda S: (lambda g: [g.forward_map, g.backward_map])(mk_gate(S, l).compile()))
+            both_dirs('CliffordLayer', gk, 'layer(%s)' % l[0], lambda S: S.ci.CliffordLayer(mk_gate(S, l)))
+            cl(acc, 'CliffordLayer.compile', lambda f, r: 'any-gate' if f == 'raise' else gk, 'layer(%s).compile(%d) maps' % (l[0], N),
+               lambda S: (lambda y: [y.forward_map, y.backward_map])(S.ci.CliffordLayer(mk_gate(S, l)).compile(N)))
+            both_dirs('CliffordLayer', gk + ',compiled', 'layer(%s) compiled' % l[0], lambda S: pre(lambda: S.ci.CliffordLayer(mk_gate(S, l)).compile(N)))
+        if len(letters) == 2 and not set(letters[0][2]) & set(letters[1][2]):
+            both_dirs('CliffordLayer', 'two-disjoint-gates', 'layer(%s)' % pn, lambda S: S.ci.CliffordLayer(*[mk_gate(S, l) for l in letters]))
+            both_dirs('CliffordLayer', 'two-disjoint-gates,copy', 'layer(%s).copy()' % pn, lambda S: S.ci.CliffordLayer(*[mk_gate(S, l) for l in letters]).copy())
+        cl(acc, 'CliffordCircuit.take', pk, 'circuit(%s) layout' % pn, lambda S: [('layout', layout(mk_circ(S, N, letters)))][0][1])
+        cl(acc, 'CliffordCircuit.N', pk, 'circuit(%s).N' % pn, lambda S: mk_circ(S, N, letters).N)
+        both_dirs('CliffordCircuit', pk + ',' + locality, 'circuit(%s)' % pn, lambda S: mk_circ(S, N, letters))
+        both_dirs('CliffordCircuit', pk + ',' + locality + ',copy', 'circuit(%s).copy()' % pn, lambda S: mk_circ(S, N, letters).copy())
+        cl(acc, 'CliffordCircuit.compile', lambda f, r: 'any-program' if f == 'raise' else pk, 'circuit(%s).compile() maps' % pn,
+           lambda S: (lambda c: [c.forward_map, c.backward_map])(mk_circ(S, N, letters).compile()))
+        both_dirs('CliffordCircuit', pk + ',compiled', 'circuit(%s).compile()' % pn, lambda S: pre(lambda: mk_circ(S, N, letters).compile()))
+        cl(acc, 'CliffordCircuit.copy', lambda f, r: 'compiled' if f == 'raise' else 'compiled,' + pk, 'circuit(%s).compile().copy() maps' % pn,
+           lambda S: (lambda c: [c.forward_map, c.backward_map])(pre(lambda: mk_circ(S, N, letters).compile()).copy()))
+        both_dirs('CliffordCircuit', pk + ',copy-of-compiled', 'circuit(%s).compile().copy()' % pn, lambda S: pre(lambda: mk_circ(S, N, letters).compile().copy()))
+
+        def with_maps(S):
+            c = mk_circ(S, N, letters)
+            c.forward_map = S.st.identity_map(N)
+            c.backward_map = S.st.identity_map(N)
+            return c.copy()
+        cl(acc, 'CliffordCircuit.copy', 'forward_map-set', 'circuit(%s) with forward_map/backward_map set .copy() maps' % pn,
+           lambda S: (lambda c: [c.forward_map, c.backward_map])(with_maps(S)))
+        if len(letters) >= 2:
+            for cut in range(1, len(letters)):
+                both_dirs('CliffordCircuit.compose', pk, 'circuit(%s).compose(circuit(%s))' % ('+'.join(l[0] for l in letters[:cut]), '+'.join(l[0] for l in letters[cut:])),
+                          lambda S: mk_circ(S, N, letters[:cut]).compose(mk_circ(S, N, letters[cut:])))
+        outs.append(acc.out())
+    return merge_out(outs)
+
+
+def fn_c_diag(items):
+    """item = [what, N]: clifford_rotation_gate for all Hermitian generators; diagonalize for all Hermitian
+    Paulis x target qubit x causal flag and for pure states."""
+    outs = []
+    for item in items:
+        (what, N), sel = split(item, 2)
+        acc = Acc([what, N], sel)
+        G = ref.all_g(N)
+        Pq = np.arange(len(G)) % 4
+        if what == 'rotation_gate':
+            for g, p in dom.hermitian_paulis(N):
+                sup = np.nonzero(g[0::2] | g[1::2])[0]
+                kd = 'hermitian-generator'
+
+                def describe(S, qubits=None):
+                    gate = S.ci.clifford_rotation_gate(S.P(g, p)) if qubits is None else S.ci.clifford_rotation_gate(S.P(g, p), qubits)
+                    return [repr(tuple(int(q) for q in gate.qubits)), gate.generator]
+                cl(acc, 'clifford_rotation_gate', kd, 'clifford_rotation_gate(%s)' % gstr(g, p), lambda S: describe(S), nt=0 < len(sup) < N)
+                cl(acc, 'clifford_rotation_gate', lambda f, r: kd if f == 'raise' else kd + ',qubits-given', 'clifford_rotation_gate(%s, arange(1,%d))' % (gstr(g, p), N + 1),
+                   lambda S: describe(S, np.arange(1, N + 1)))
+                if len(sup):
+                    cl(acc, 'clifford_rotation_gate', kd + ',then-forward', 'clifford_rotation_gate(%s).forward(all strings)' % gstr(g, p),
+                       lambda S: pre(lambda: S.ci.clifford_rotation_gate(S.P(g, p))).forward(S.PL(G, Pq)))
+        elif what == 'diagonalize':
+            for g, p in dom.hermitian_paulis(N):
+                for i0 in range(N):
+                    for causal in (False, True):
+                        here = g[2 * i0:] if causal else g
+                        diag = (not np.delete(here.reshape(-1, 2), 0 if causal else i0, axis=0).any()) and here.reshape(-1, 2)[0 if causal else i0][0] == 0
+                        kd = 'operand=Pauli,%s,%s' % ('causal' if causal else 'non-causal', 'already-diagonal(no gate)' if diag else 'needs-gates')
+
+                        def run(S):
+                            c = S.ci.diagonalize(S.P(g, p), i0, causal=causal)
+                            return [layout(c), c.forward(S.PL(G, Pq)), c.forward(S.P(g, p))]
+                        cl(acc, 'diagonalize', kd, 'diagonalize(%s, %d, causal=%s)' % (gstr(g, p), i0, causal), run, nt=not diag)
+            for ti, (gs0, ps0, r0) in enumerate([] if N > 2 else [stab.tableaux(N)[k] for k in _rep_tabs(N)]):
+                if r0:
+                    continue
+
+                def run(S):
+                    c = S.ci.diagonalize(S.ST(gs0, ps0, r0))
+                    return [layout(c), c.forward(S.ST(gs0, ps0, r0)), c.backward(S.st.zero_state(N))]
+                cl(acc, 'diagonalize', 'operand=StabilizerState', lambda: 'diagonalize(%s)' % (stab.describe(gs0, ps0, r0),), run)
+        outs.append(acc.out())
+    return merge_out(outs)
+
+
 def legs(tier):
-    return kernel_legs(tier)
+    q = tier == 'quick'
+    out = kernel_legs(tier)
+    out.append(Leg('c_parse', fn_c_parse, [[N] for N in (1, 2, 3)], chunk=1, bound='pauli()/paulis() in all description formats, all strings N<=3, all 6 prefixes / 4 phase tokens'))
+    out.append(Leg('c_pauli', fn_c_pauli, [[N, i] for N in (1, 2) for i in range(4 ** N)], chunk=1,
+                   bound='Pauli algebra: all 64x64 (N=2) / 16x16 (N=1) ordered operand pairs for @, +, -; unary ops, scalars %s, numbers, polynomial / list operands' % (SCAL,)))
+    out.append(Leg('c_list', fn_c_list, [[N] for N in (1, 2, 3)], chunk=1, bound='PauliList methods on the whole group N<=3 (all phases), every index form'))
+    npart = 4 if q else 8
+    pi = [[1, lo, lo + 32, npart] for lo in range(0, 256, 32)]
+    n2 = 64 * 64
+    pi += [[2, lo, lo + 1, npart] for lo in range(0, n2, 15)] if q else [[2, lo, lo + 16, npart] for lo in range(0, n2, 16)]
+    out.append(Leg('c_poly', fn_c_poly, pi, chunk=8,
+                   bound='PauliPolynomial algebra on the pool of two-term polynomials over all pairs of group elements: N=1 all 256, N=2 %s; '
+                         '%d partner polynomials each for + - @' % ('every 15th of the 4096 (274 polynomials, every left and right element occurs)' if q else 'all 4096', npart)))
+    out.append(Leg('c_rotate', fn_c_rotate, [[N, i] for N in (1, 2, 3) for i in range(4 ** N)], chunk=2,
+                   bound='rotate_by(+-G) without mask: all generators N<=3 on PauliList / PauliPolynomial (whole group), every Pauli, one state per density '
+                         'matrix (N<=2), 4 product states (N=3), 4 maps'))
+    rm = [[N, n, i] for N in (2, 3) for n in range(1, N) for i in range(4 ** n)]
+    out.append(Leg('c_rotate_mask', fn_c_rotate_mask, rm, chunk=1,
+                   bound='rotate_by(+-G, mask): all n-qubit generators through every n-subset of N qubits (N=2,3; incl. the non-contiguous mask [0,2])'))
+    mi = [[N, m] for N in (1, 2) for m in _maps_for(N, tier, 1)]
+    out.append(Leg('c_map', fn_c_map, mi, chunk=8, src_states=len(mi), timeout=3000,
+                   bound='transform_by / inverse / copy / to_state(r) / to_map / compose with 8 partner maps on both sides: N=1 all 24 maps (all 24x24 '
+                         'compositions), N=2 %s' % ('720 tables x 1 sign pattern rotating through all 16' if q else 'all 11520 maps')))
+    mm = [[N, 1, m] for N in (2, 3) for m in range(24)] + [[3, 2, m] for m in _maps_for(2, tier, 1)]
+    out.append(Leg('c_map_mask', fn_c_map_mask, mm, chunk=8, timeout=3000,
+                   bound='transform_by(map, mask) and identity_map(N).embed(map, mask): all 24 one-qubit maps at every position of N=2,3; two-qubit maps '
+                         '(%s) through the three masks of N=3' % ('720 tables x 1 rotating sign pattern' if q else 'all 11520')))
+    si = [[N, t] for N in (1, 2) for t in _tabs_for(N, tier)]
+    out.append(Leg('c_state', fn_c_state, si, chunk=8, src_states=len(si), timeout=3000,
+                   bound='expect (PauliList / Pauli / polynomial), entropy (4 input forms x all subsets), density_matrix, get_prob (all bit strings), to_map, '
+                         'copy, tokenize, stabilizers, operator overloads: N=1 all 48 tableaux, N=2 %s' % (
+                             '720 tables x 1 rotating sign pattern x 3 ranks' if q else 'all 34560 tableaux')))
+    ov = [[1, t, 'r'] for t in range(48)]
+    pure2 = [t for t in _tabs_for(2, tier) if t % 3 == 0]
+    reps0 = [t for t in _rep_tabs(2)]
+    if q:
+        ov += [[2, t, 'r'] for t in reps0] + [[2, t, 's'] for t in pure2] + [[2, t + 1, 's'] for t in pure2[::16]]
+    else:
+        ov += [[2, t, 'r'] for t in pure2] + [[2, t, 's'] for t in _tabs_for(2, 'quick') if t % 3]
+    out.append(Leg('c_overlap', fn_c_overlap, ov, chunk=8, timeout=3000,
+                   bound='expect(StabilizerState): N=1 all 48 receivers x 7 operands; N=2 %s (mixed receivers refuse in both packages)' % (
+                       'one receiver per density matrix x one operand per density matrix (91x91) and 720 pure receivers x 8 operands' if q else
+                       'all 11520 pure receivers x one operand per density matrix (91)')))
+    ci = [['named', N] for N in (1, 2, 3, 4)]
+    for N in ((1, 2) if q else (1, 2, 3)):
+        for L in range(1, N + 1):
+            tot = len(dom.commuting_lists(N, L))
+            ci += [['stab', N, L, lo, min(lo + 30, tot)] for lo in range(0, tot, 30)]
+    out.append(Leg('c_ctor', fn_c_ctor, ci, chunk=2,
+                   bound='zero/one/ghz/maximally_mixed/identity_map N<=4; clifford_rotation_map for all Hermitian generators N<=3; stabilizer_state on all ordered '
+                         'independent commuting lists N<=%d (all sign patterns for N<=2) in 3 input formats' % (2 if q else 3)))
+    pr = []
+    for N in (2, 3):
+        na = len(alphabet(N))
+        for L in ((1, 2) if (q or N == 3) else (1, 2, 3)):
+            pr += [[N] + list(w) for w in itertools.product(range(na), repeat=L)]
+    out.append(Leg('c_circ', fn_c_circ, pr, chunk=2, timeout=3000,
+                   bound='gate / layer / circuit forward and backward on the full string list and 3 states, configurations plain / copy / compiled / '
+                         'copy-of-compiled / composed at every cut: all programs of length <=%s over 8 letters (N=2) and <=2 over 12 letters (N=3)' % (2 if q else 3)))
+    out.append(Leg('c_diag', fn_c_diag, [[w, N] for w in ('rotation_gate', 'diagonalize') for N in (1, 2, 3)], chunk=1,
+                   bound='clifford_rotation_gate: all Hermitian generators N<=3; diagonalize: all Hermitian Paulis x target qubit x causal flag N<=3, pure states N<=2'))
+    return out
